@@ -561,6 +561,10 @@ FIXED_CASES = [
      "@dataclass\nclass On(DataClassDictMixin):\n    x: Optional[int]\n    y: Annotated[Optional[str], 'n']\n    z: int\n    a: Any\n"
      "    w: Literal[1, None] = None\n    class Config(BaseConfig):\n        omit_none = True\n", "On",
      ["On(None, None, 1, None)", "On(1, 's', 2, [1], 1)", "On(None, 's', 3, 'q', None)"]),
+    ("omit_none owner, unions with a None member",
+     "@dataclass\nclass Ou(DataClassDictMixin):\n    u: Union[int, None, str]\n    v: Annotated[Union[bytes, None, List[int], bool], 'n']\n    k: Union[int, str]\n"
+     "    class Config(BaseConfig):\n        omit_none = True\n", "Ou",
+     ["Ou(None, None, 1)", "Ou('s', [1], 'k')", "Ou(2, None, 3)"]),
     ("same name", "def mk(t):\n    @dataclass\n    class P(DataClassDictMixin):\n        v: t\n    return P\nP1 = mk(int)\nP2 = mk(str)\n"
                   "@dataclass\nclass HP(DataClassDictMixin):\n    a: P1\n    b: P2\n", "HP", ["HP(P1(1), P2('s'))"]),
 ]
@@ -969,12 +973,13 @@ def required_part(ctx):
     from mashumaro.core.meta.code.builder import CodeBuilder
     from mashumaro.jsonschema import build_json_schema
     r = ctx.rng
-    cores = [("int", (0, 0)), ("Optional[int]", (0, 1)), ("Any", (1, 0)), ("None", (1, 0)), ("Literal[1, None]", (0, 0)),
-             ("Union[int, None, str]", (0, 0)), ("List[Optional[int]]", (0, 0)), ("str", (0, 0))]
+    # (ftype in (Any, NoneType, None), is_optional, union with a None member)
+    cores = [("int", (0, 0, 0)), ("Optional[int]", (0, 1, 1)), ("Any", (1, 0, 0)), ("None", (1, 0, 0)), ("Literal[1, None]", (0, 0, 0)),
+             ("Union[int, None, str]", (0, 0, 1)), ("Union[int, str]", (0, 0, 0)), ("List[Optional[int]]", (0, 0, 0)), ("str", (0, 0, 0))]
     stacks = [[], ["A"], ["F"], ["F", "A"], ["A", "A"], ["A", "F"]]
     cases, descr = [], []
     for _ in range(ctx.budget(60, 300)):
-        core, (anyn, opt) = r.choice(cores)
+        core, (anyn, opt, unone) = r.choice(cores)
         st = r.choice(stacks)
         dflt = r.choice([None, None, "None", "1"])
         omit = r.random() < 0.6
@@ -999,7 +1004,7 @@ def required_part(ctx):
             continue
         finally:
             unload_module(m)
-        term = f"(FCore (mkCore {'true' if anyn else 'false'} false {'true' if opt else 'false'}))"
+        term = f"(FCore (mkCore {'true' if anyn else 'false'} false {'true' if opt else 'false'} {'true' if unone else 'false'}))"
         for w in reversed(st):
             term = f"(FAnnotated {term})" if w == "A" else f"(FFinal (Some {term}))"
         cb_ = lambda b: "true" if b else "false"
